@@ -1,1 +1,502 @@
-//! Hand-written parsers for reporter output (strict JSON, XML well-formedness, terminal lines).
+//! Hand-written parsers for reporter output: strict RFC 8259 JSON and XML 1.0 well-formedness
+//! (elements, attributes, the five predefined entities, numeric references, CDATA, comments, PI).
+//! Written for the harness so that the oracle does not share code with the reporters.
+
+use std::collections::BTreeMap;
+
+// ------------------------------------------------------------------------------------------
+// JSON
+
+#[derive(Clone, Debug, PartialEq)]
+pub enum J {
+    Null,
+    Bool(bool),
+    Num(f64),
+    Str(String),
+    Arr(Vec<J>),
+    Obj(Vec<(String, J)>),
+}
+
+impl J {
+    pub fn get(&self, k: &str) -> Option<&J> {
+        match self {
+            J::Obj(v) => v.iter().find(|(n, _)| n == k).map(|(_, v)| v),
+            _ => None,
+        }
+    }
+    pub fn str(&self) -> Option<&str> {
+        match self {
+            J::Str(s) => Some(s),
+            _ => None,
+        }
+    }
+    pub fn num(&self) -> Option<f64> {
+        match self {
+            J::Num(n) => Some(*n),
+            _ => None,
+        }
+    }
+    pub fn arr(&self) -> &[J] {
+        match self {
+            J::Arr(v) => v,
+            _ => &[],
+        }
+    }
+}
+
+struct Jp<'a> {
+    s: &'a [u8],
+    i: usize,
+}
+
+pub fn parse_json(text: &str) -> Result<J, String> {
+    let mut p = Jp { s: text.as_bytes(), i: 0 };
+    p.ws();
+    let v = p.value(0)?;
+    p.ws();
+    if p.i != p.s.len() {
+        return Err(format!("trailing characters at byte {}", p.i));
+    }
+    Ok(v)
+}
+
+impl Jp<'_> {
+    fn ws(&mut self) {
+        while self.i < self.s.len() && matches!(self.s[self.i], b' ' | b'\t' | b'\n' | b'\r') {
+            self.i += 1;
+        }
+    }
+    fn err<T>(&self, m: &str) -> Result<T, String> {
+        Err(format!("{m} at byte {}", self.i))
+    }
+    fn value(&mut self, depth: usize) -> Result<J, String> {
+        if depth > 200 {
+            return self.err("nesting too deep");
+        }
+        match self.s.get(self.i) {
+            None => self.err("unexpected end"),
+            Some(b'{') => {
+                self.i += 1;
+                let mut out: Vec<(String, J)> = vec![];
+                self.ws();
+                if self.s.get(self.i) == Some(&b'}') {
+                    self.i += 1;
+                    return Ok(J::Obj(out));
+                }
+                loop {
+                    self.ws();
+                    if self.s.get(self.i) != Some(&b'"') {
+                        return self.err("expected string key");
+                    }
+                    let k = self.string()?;
+                    if out.iter().any(|(n, _)| *n == k) {
+                        return self.err("duplicate object key");
+                    }
+                    self.ws();
+                    if self.s.get(self.i) != Some(&b':') {
+                        return self.err("expected ':'");
+                    }
+                    self.i += 1;
+                    self.ws();
+                    let v = self.value(depth + 1)?;
+                    out.push((k, v));
+                    self.ws();
+                    match self.s.get(self.i) {
+                        Some(b',') => self.i += 1,
+                        Some(b'}') => {
+                            self.i += 1;
+                            return Ok(J::Obj(out));
+                        }
+                        _ => return self.err("expected ',' or '}'"),
+                    }
+                }
+            }
+            Some(b'[') => {
+                self.i += 1;
+                let mut out = vec![];
+                self.ws();
+                if self.s.get(self.i) == Some(&b']') {
+                    self.i += 1;
+                    return Ok(J::Arr(out));
+                }
+                loop {
+                    self.ws();
+                    out.push(self.value(depth + 1)?);
+                    self.ws();
+                    match self.s.get(self.i) {
+                        Some(b',') => self.i += 1,
+                        Some(b']') => {
+                            self.i += 1;
+                            return Ok(J::Arr(out));
+                        }
+                        _ => return self.err("expected ',' or ']'"),
+                    }
+                }
+            }
+            Some(b'"') => Ok(J::Str(self.string()?)),
+            Some(b't') => self.lit("true", J::Bool(true)),
+            Some(b'f') => self.lit("false", J::Bool(false)),
+            Some(b'n') => self.lit("null", J::Null),
+            Some(c) if *c == b'-' || c.is_ascii_digit() => self.number(),
+            Some(_) => self.err("unexpected character"),
+        }
+    }
+    fn lit(&mut self, w: &str, v: J) -> Result<J, String> {
+        if self.s[self.i..].starts_with(w.as_bytes()) {
+            self.i += w.len();
+            Ok(v)
+        } else {
+            self.err("bad literal")
+        }
+    }
+    fn number(&mut self) -> Result<J, String> {
+        let st = self.i;
+        if self.s.get(self.i) == Some(&b'-') {
+            self.i += 1;
+        }
+        match self.s.get(self.i) {
+            Some(b'0') => self.i += 1,
+            Some(c) if c.is_ascii_digit() => {
+                while self.s.get(self.i).is_some_and(u8::is_ascii_digit) {
+                    self.i += 1;
+                }
+            }
+            _ => return self.err("bad number"),
+        }
+        if self.s.get(self.i) == Some(&b'.') {
+            self.i += 1;
+            if !self.s.get(self.i).is_some_and(u8::is_ascii_digit) {
+                return self.err("bad fraction");
+            }
+            while self.s.get(self.i).is_some_and(u8::is_ascii_digit) {
+                self.i += 1;
+            }
+        }
+        if matches!(self.s.get(self.i), Some(b'e' | b'E')) {
+            self.i += 1;
+            if matches!(self.s.get(self.i), Some(b'+' | b'-')) {
+                self.i += 1;
+            }
+            if !self.s.get(self.i).is_some_and(u8::is_ascii_digit) {
+                return self.err("bad exponent");
+            }
+            while self.s.get(self.i).is_some_and(u8::is_ascii_digit) {
+                self.i += 1;
+            }
+        }
+        std::str::from_utf8(&self.s[st..self.i]).ok().and_then(|t| t.parse::<f64>().ok()).map(J::Num).ok_or_else(|| "bad number".to_string())
+    }
+    fn hex4(&mut self) -> Result<u32, String> {
+        if self.i + 4 > self.s.len() {
+            return self.err("short \\u escape");
+        }
+        let t = std::str::from_utf8(&self.s[self.i..self.i + 4]).map_err(|_| "bad \\u escape".to_string())?;
+        let v = u32::from_str_radix(t, 16).map_err(|_| format!("bad \\u escape at byte {}", self.i))?;
+        self.i += 4;
+        Ok(v)
+    }
+    fn string(&mut self) -> Result<String, String> {
+        self.i += 1; // opening quote
+        let mut out = String::new();
+        loop {
+            let Some(&c) = self.s.get(self.i) else { return self.err("unterminated string") };
+            match c {
+                b'"' => {
+                    self.i += 1;
+                    return Ok(out);
+                }
+                b'\\' => {
+                    self.i += 1;
+                    let Some(&e) = self.s.get(self.i) else { return self.err("unterminated escape") };
+                    self.i += 1;
+                    match e {
+                        b'"' => out.push('"'),
+                        b'\\' => out.push('\\'),
+                        b'/' => out.push('/'),
+                        b'b' => out.push('\u{8}'),
+                        b'f' => out.push('\u{c}'),
+                        b'n' => out.push('\n'),
+                        b'r' => out.push('\r'),
+                        b't' => out.push('\t'),
+                        b'u' => {
+                            let mut cp = self.hex4()?;
+                            if (0xD800..0xDC00).contains(&cp) {
+                                if self.s.get(self.i) == Some(&b'\\') && self.s.get(self.i + 1) == Some(&b'u') {
+                                    self.i += 2;
+                                    let lo = self.hex4()?;
+                                    if !(0xDC00..0xE000).contains(&lo) {
+                                        return self.err("bad low surrogate");
+                                    }
+                                    cp = 0x10000 + ((cp - 0xD800) << 10) + (lo - 0xDC00);
+                                } else {
+                                    return self.err("lone high surrogate");
+                                }
+                            } else if (0xDC00..0xE000).contains(&cp) {
+                                return self.err("lone low surrogate");
+                            }
+                            out.push(char::from_u32(cp).ok_or_else(|| "bad code point".to_string())?);
+                        }
+                        _ => return self.err("bad escape"),
+                    }
+                }
+                c if c < 0x20 => return self.err("raw control character in string"),
+                _ => {
+                    // copy one UTF-8 scalar
+                    let rest = std::str::from_utf8(&self.s[self.i..]).map_err(|_| format!("invalid UTF-8 at byte {}", self.i))?;
+                    let ch = rest.chars().next().unwrap();
+                    out.push(ch);
+                    self.i += ch.len_utf8();
+                }
+            }
+        }
+    }
+}
+
+// ------------------------------------------------------------------------------------------
+// XML
+
+#[derive(Clone, Debug, Default)]
+pub struct Xml {
+    pub name: String,
+    pub attrs: BTreeMap<String, String>,
+    pub children: Vec<Xml>,
+    /// Concatenated character data (text + CDATA) directly inside this element.
+    pub text: String,
+}
+
+impl Xml {
+    pub fn child(&self, name: &str) -> Option<&Xml> {
+        self.children.iter().find(|c| c.name == name)
+    }
+    pub fn attr(&self, k: &str) -> Option<&str> {
+        self.attrs.get(k).map(String::as_str)
+    }
+}
+
+struct Xp<'a> {
+    s: &'a str,
+    i: usize,
+}
+
+fn is_name_start(c: char) -> bool {
+    c.is_alphabetic() || c == '_' || c == ':'
+}
+fn is_name_char(c: char) -> bool {
+    is_name_start(c) || c.is_ascii_digit() || c == '-' || c == '.'
+}
+fn is_xml_char(c: char) -> bool {
+    matches!(c, '\t' | '\n' | '\r' | '\u{20}'..='\u{D7FF}' | '\u{E000}'..='\u{FFFD}' | '\u{10000}'..='\u{10FFFF}')
+}
+
+pub fn parse_xml(text: &str) -> Result<Xml, String> {
+    let mut p = Xp { s: text, i: 0 };
+    // prolog
+    if p.rest().starts_with("<?xml") {
+        let end = p.rest().find("?>").ok_or("unterminated XML declaration")?;
+        p.i += end + 2;
+    }
+    p.misc()?;
+    let root = p.element(0)?;
+    p.misc()?;
+    if p.i != p.s.len() {
+        return Err(format!("content after the root element at byte {}", p.i));
+    }
+    Ok(root)
+}
+
+impl Xp<'_> {
+    fn rest(&self) -> &str {
+        &self.s[self.i..]
+    }
+    fn peek(&self) -> Option<char> {
+        self.rest().chars().next()
+    }
+    fn ws(&mut self) {
+        while self.peek().is_some_and(|c| matches!(c, ' ' | '\t' | '\n' | '\r')) {
+            self.i += 1;
+        }
+    }
+    fn misc(&mut self) -> Result<(), String> {
+        loop {
+            self.ws();
+            if self.rest().starts_with("<!--") {
+                self.comment()?;
+            } else if self.rest().starts_with("<?") {
+                let end = self.rest().find("?>").ok_or("unterminated processing instruction")?;
+                self.i += end + 2;
+            } else {
+                return Ok(());
+            }
+        }
+    }
+    fn comment(&mut self) -> Result<(), String> {
+        let body_start = self.i + 4;
+        let end = self.s[body_start..].find("--").ok_or("unterminated comment")?;
+        if !self.s[body_start + end..].starts_with("-->") {
+            return Err(format!("`--` inside a comment at byte {}", body_start + end));
+        }
+        self.i = body_start + end + 3;
+        Ok(())
+    }
+    fn name(&mut self) -> Result<String, String> {
+        let st = self.i;
+        match self.peek() {
+            Some(c) if is_name_start(c) => self.i += c.len_utf8(),
+            _ => return Err(format!("expected a name at byte {}", self.i)),
+        }
+        while let Some(c) = self.peek() {
+            if is_name_char(c) {
+                self.i += c.len_utf8();
+            } else {
+                break;
+            }
+        }
+        Ok(self.s[st..self.i].to_string())
+    }
+    fn reference(&mut self) -> Result<char, String> {
+        // at '&'
+        let end = self.rest().find(';').ok_or_else(|| format!("unterminated reference at byte {}", self.i))?;
+        let body = &self.rest()[1..end];
+        let c = match body {
+            "lt" => '<',
+            "gt" => '>',
+            "amp" => '&',
+            "apos" => '\'',
+            "quot" => '"',
+            _ => {
+                let cp = if let Some(h) = body.strip_prefix("#x") {
+                    u32::from_str_radix(h, 16).ok()
+                } else if let Some(d) = body.strip_prefix('#') {
+                    d.parse::<u32>().ok()
+                } else {
+                    None
+                };
+                let c = cp.and_then(char::from_u32).ok_or_else(|| format!("unknown entity `&{body};` at byte {}", self.i))?;
+                if !is_xml_char(c) {
+                    return Err(format!("character reference to a non-XML character at byte {}", self.i));
+                }
+                c
+            }
+        };
+        self.i += end + 1;
+        Ok(c)
+    }
+    fn attr_value(&mut self) -> Result<String, String> {
+        let q = self.peek().filter(|c| *c == '"' || *c == '\'').ok_or_else(|| format!("expected a quoted attribute value at byte {}", self.i))?;
+        self.i += 1;
+        let mut out = String::new();
+        loop {
+            match self.peek() {
+                None => return Err("unterminated attribute value".into()),
+                Some(c) if c == q => {
+                    self.i += 1;
+                    return Ok(out);
+                }
+                Some('<') => return Err(format!("`<` in attribute value at byte {}", self.i)),
+                Some('&') => out.push(self.reference()?),
+                Some(c) => {
+                    if !is_xml_char(c) {
+                        return Err(format!("non-XML character U+{:04X} in attribute value at byte {}", c as u32, self.i));
+                    }
+                    // attribute-value normalisation: literal whitespace becomes a space
+                    out.push(if matches!(c, '\t' | '\n' | '\r') { ' ' } else { c });
+                    self.i += c.len_utf8();
+                }
+            }
+        }
+    }
+    fn element(&mut self, depth: usize) -> Result<Xml, String> {
+        if depth > 100 {
+            return Err("nesting too deep".into());
+        }
+        if self.peek() != Some('<') {
+            return Err(format!("expected `<` at byte {}", self.i));
+        }
+        self.i += 1;
+        let mut el = Xml { name: self.name()?, ..Xml::default() };
+        loop {
+            let had_ws = self.peek().is_some_and(|c| matches!(c, ' ' | '\t' | '\n' | '\r'));
+            self.ws();
+            match self.peek() {
+                Some('/') => {
+                    if !self.rest().starts_with("/>") {
+                        return Err(format!("bad empty-element tag at byte {}", self.i));
+                    }
+                    self.i += 2;
+                    return Ok(el);
+                }
+                Some('>') => {
+                    self.i += 1;
+                    break;
+                }
+                Some(_) => {
+                    if !had_ws {
+                        return Err(format!("missing whitespace before attribute at byte {}", self.i));
+                    }
+                    let k = self.name()?;
+                    self.ws();
+                    if self.peek() != Some('=') {
+                        return Err(format!("expected `=` at byte {}", self.i));
+                    }
+                    self.i += 1;
+                    self.ws();
+                    let v = self.attr_value()?;
+                    if el.attrs.insert(k.clone(), v).is_some() {
+                        return Err(format!("duplicate attribute `{k}`"));
+                    }
+                }
+                None => return Err("unterminated start tag".into()),
+            }
+        }
+        // content
+        loop {
+            if self.rest().starts_with("</") {
+                self.i += 2;
+                let n = self.name()?;
+                if n != el.name {
+                    return Err(format!("end tag `{n}` does not match `{}` at byte {}", el.name, self.i));
+                }
+                self.ws();
+                if self.peek() != Some('>') {
+                    return Err(format!("bad end tag at byte {}", self.i));
+                }
+                self.i += 1;
+                return Ok(el);
+            } else if self.rest().starts_with("<![CDATA[") {
+                self.i += 9;
+                let end = self.rest().find("]]>").ok_or("unterminated CDATA section")?;
+                let body = &self.rest()[..end];
+                if let Some(c) = body.chars().find(|c| !is_xml_char(*c)) {
+                    return Err(format!("non-XML character U+{:04X} in CDATA", c as u32));
+                }
+                el.text.push_str(body);
+                self.i += end + 3;
+            } else if self.rest().starts_with("<!--") {
+                self.comment()?;
+            } else if self.rest().starts_with("<?") {
+                let end = self.rest().find("?>").ok_or("unterminated processing instruction")?;
+                self.i += end + 2;
+            } else if self.peek() == Some('<') {
+                el.children.push(self.element(depth + 1)?);
+            } else {
+                match self.peek() {
+                    None => return Err(format!("unterminated element `{}`", el.name)),
+                    Some('&') => {
+                        let c = self.reference()?;
+                        el.text.push(c);
+                    }
+                    Some(c) => {
+                        if self.rest().starts_with("]]>") {
+                            return Err(format!("`]]>` in character data at byte {}", self.i));
+                        }
+                        if !is_xml_char(c) {
+                            return Err(format!("non-XML character U+{:04X} in character data at byte {}", c as u32, self.i));
+                        }
+                        el.text.push(c);
+                        self.i += c.len_utf8();
+                    }
+                }
+            }
+        }
+    }
+}
